@@ -30,6 +30,17 @@ def guarded(fn):
         return {"exc": type(e).__name__}
 
 
+def _double(x):
+    return x * 2.0
+
+
+def _triple(x):
+    return x * 3.0
+
+
+EXT = {"double": _double, "triple": _triple}
+
+
 def execute(payload):
     """payload: {"op", "formula", "train", "mode", "frame"} with frames as vf.frames specs."""
     from formulae import config, design_matrices, model_description
@@ -43,6 +54,8 @@ def execute(payload):
     import numpy
 
     ns = {"np": numpy}
+    if payload.get("extra"):
+        ns["ext"] = EXT[payload["extra"]]
     config["EVAL_UNSEEN_CATEGORIES"] = payload.get("mode", "error")
     train = frames.build(payload["train"])
     if op == "build":
